@@ -17,6 +17,7 @@ let () =
   | _ :: "strat" :: _ -> L_eval.run_strat ()
   | _ :: "doc" :: _ -> L_eval.run_doc ()
   | _ :: "docbase" :: _ -> L_eval.run_doc_base ()
+  | _ :: "edges" :: _ -> L_eval.run_edges ()
   | _ :: "lex" :: _ -> L_lex.run ()
   | _ :: "diag" :: _ -> L_diag.run ()
   | _ ->
